@@ -47,6 +47,13 @@ def run(rep, prop):
     per.append({'universe': 'U4q', 'start_states_built_directly': len(st4), 'transitions': t4, 'alphabet': 'attach'})
     states += len(st4)
     trans += t4
+    # ids (1, 2, 0, 0): three tasks in W0 in every hierarchy with <= 1 link, the fourth - sharing an id with the third - detached;
+    # one step of the attach alphabet, and what follows from successors that break only C05 / C11 (two more steps)
+    st4e = bfs.seeded_states('U4e', deep_only=False, in_wbs=('last-out',), max_links=1)
+    t4e = bfs.from_states('U4e', st4e, 'attach', rep.acc)
+    per.append({'universe': 'U4e', 'start_states_built_directly': len(st4e), 'transitions': t4e, 'alphabet': 'attach'})
+    states += len(st4e)
+    trans += t4e
     # held-facade transitions (DESIGN section 0): U2 from every state; U3 from the states of depth <= 1 (quick) / all (thorough)
     held = 0
     for uname, maxd in (('U2', None), ('U3', 1 if rep.tier == 'quick' else None)):
